@@ -3,8 +3,10 @@
 //! (a) the shared decision functions of `samyama_optimization` (`moo::constrained_dominates`,
 //!     `moo::fast_non_dominated_sort`, `moo::EliteArchive::insert`, `rng::child_rng`, `f64::clamp`)
 //!     against the Lean model `SgModel.Moo` (driver `drv_moo`), exactly;
-//! (b) every public solver on generated box problems, run twice in child processes of this
-//!     binary (`RAYON_NUM_THREADS` = 1 and 8): the two results must be bit-identical and the
+//! (b) every public solver configuration at populations {5, 8, 12, 16, 30, 33, 50, 64} (both sides of
+//!     the thresholds 12 and 32), short and long iteration counts, dimensions 1-6, run four times in
+//!     child processes of this binary (`RAYON_NUM_THREADS` = 1, 2, 8 and 8 again): the four results
+//!     must be bit-identical (thread-count independence and same-pool repeatability) and the
 //!     result is judged by the Lean predicates InBounds / BestIsFitness / HistoryAntitone /
 //!     FrontNonDominated (`so` / `mo` requests).  This part is a monitor with a formally stated
 //!     oracle, not a proof about the solvers.
@@ -249,16 +251,21 @@ fn child(jobs: &str, out: &str) {
     }
 }
 
-/// run the jobs in `n_chunks` × {1, 8 threads} child processes; returns (result@1, result@8) per job
-fn run_children(args: &Args, jobs: &[Job], n_chunks: usize, timeout_s: u64) -> Vec<(String, String)> {
+/// the runs every job gets: (label, RAYON_NUM_THREADS).  `8b` repeats the 8-thread run: same seed twice
+/// in the same pool must also agree.
+const POOLS: [(&str, usize); 4] = [("1", 1), ("2", 2), ("8", 8), ("8b", 8)];
+
+/// run the jobs in `n_chunks` x POOLS child processes; returns one result line per pool, per job
+fn run_children(args: &Args, jobs: &[Job], n_chunks: usize, timeout_s: u64) -> Vec<Vec<String>> {
     let exe = std::env::current_exe().expect("current exe");
     let chunk = ((jobs.len() + n_chunks - 1) / n_chunks).max(1);
     let mut procs = vec![];
     for (ci, c) in jobs.chunks(chunk).enumerate() {
         let jf = args.work.join(format!("jobs-{}.txt", ci));
         std::fs::write(&jf, c.iter().map(show_job).collect::<Vec<_>>().join("\n") + "\n").expect("write jobs");
-        for th in [1usize, 8] {
-            let of = args.work.join(format!("out-{}-{}.txt", ci, th));
+        for (pi, (label, th)) in POOLS.iter().enumerate() {
+            let of = args.work.join(format!("out-{}-{}.txt", ci, label));
+            let _ = std::fs::remove_file(&of);
             let ch = Command::new(&exe)
                 .arg("--child")
                 .arg(&jf)
@@ -269,12 +276,12 @@ fn run_children(args: &Args, jobs: &[Job], n_chunks: usize, timeout_s: u64) -> V
                 .stderr(Stdio::null())
                 .spawn()
                 .expect("spawn child");
-            procs.push((ci, th, c.len(), of, ch));
+            procs.push((ci, pi, c.len(), of, ch));
         }
     }
     let start = std::time::Instant::now();
-    let mut results: Vec<(String, String)> = vec![(String::new(), String::new()); jobs.len()];
-    for (ci, th, n, of, mut ch) in procs {
+    let mut results: Vec<Vec<String>> = vec![vec![String::new(); POOLS.len()]; jobs.len()];
+    for (ci, pi, n, of, mut ch) in procs {
         loop {
             match ch.try_wait() {
                 Ok(Some(_)) => break,
@@ -297,12 +304,7 @@ fn run_children(args: &Args, jobs: &[Job], n_chunks: usize, timeout_s: u64) -> V
                 None if k == got.len() => "hang-or-abort".to_string(), // the job the child was in when it died / was killed
                 None => "not-run".to_string(),
             };
-            let slot = &mut results[ci * chunk + k];
-            if th == 1 {
-                slot.0 = r
-            } else {
-                slot.1 = r
-            }
+            results[ci * chunk + k][pi] = r;
         }
     }
     results
@@ -343,9 +345,9 @@ fn keys_csv(v: &[f64]) -> String {
 
 // ---------------------------------------------------------------- generators
 
-fn gen_spec(rng: &mut Rng, shape: u8) -> Spec {
+fn gen_spec(rng: &mut Rng, shape: u8, dim: Option<usize>) -> Spec {
     // shape 0: all proper intervals; 1: some degenerate; 2: all degenerate
-    let dim = 1 + rng.usize(6);
+    let dim = dim.unwrap_or_else(|| 1 + rng.usize(6));
     const PROPER: &[(f64, f64)] = &[(-3.5, 10.25), (2.0, 7.0), (-8.0, -1.0), (0.0, 0.5), (-0.25, 0.25), (1.0, 1000.0), (-100.0, 3.0)];
     const DEGEN: &[(f64, f64)] = &[(2.5, 2.5), (0.0, 0.0), (-1.0, -1.0), (7.0, 7.0)];
     let mut lo = vec![];
@@ -406,8 +408,8 @@ fn main() {
     let mut rep = Report::new(
         "C34",
         "(a) shared decision functions (dominance, non-dominated sort, archive insert, child seed, clamp) on generated integer-valued populations, compared exactly with the Lean model; \
-         (b) every public solver (29 structs, 35 configurations) x generated box problems (dim 1-6; asymmetric, tiny and degenerate lo = hi intervals; penalties) x seeds x thread pools {1, 8}, \
-         result judged by the Lean predicates; non-trivial = solver run whose box is asymmetric or degenerate and whose optimum lies on the boundary; distinct = distinct job line",
+         (b) every public solver (29 structs, 35 configurations) x populations {5,8,12,16,30,33,50,64} x iteration counts {2..64} x generated box problems (dim 1-6; asymmetric, tiny and degenerate lo = hi intervals; penalties) x seeds, \
+         each run under rayon pools of 1, 2, 8 and 8 (again) threads and compared bit-for-bit, result judged by the Lean predicates; quick samples boxes/iterations per (solver, population) pair, thorough runs the full product; non-trivial = solver run whose box is asymmetric or degenerate and whose optimum lies on the boundary; distinct = distinct job line",
         &args.replays,
         args.seed,
     );
@@ -508,26 +510,46 @@ fn main() {
             }
         }
     }
+    // The matrix.  A parameter of a run may only matter above a size threshold (sub-population counts,
+    // stagnation limits, chunking), so every solver configuration is run at populations on both sides of
+    // 12 and of 32, at short and long iteration counts, in dimensions 1-6.  quick: every (solver, population)
+    // pair with boxes / iteration counts / seeds sampled from the seed; thorough: the full product.
+    const POPS: [usize; 8] = [5, 8, 12, 16, 30, 33, 50, 64];
+    const ITERS: [usize; 4] = [2, 9, 25, 60];
     if args.replay.is_none() {
-        let per = if args.thorough() { 90 } else { 15 };
-        let (max_pop, max_it) = if args.thorough() { (28, 40) } else { (16, 24) };
-        for k in 0..per {
-            let shape = (k % 3) as u8;
-            let spec = gen_spec(&mut rng, shape);
-            for s in SO_SOLVERS.iter().chain(MO_SOLVERS.iter()) {
-                let nseeds = if args.thorough() { 2 } else { 2 };
-                for _ in 0..nseeds {
-                    jobs.push(Job { solver: s.to_string(), pop: 5 + rng.usize(max_pop - 4), iters: 1 + rng.usize(max_it), seed: rng.next_u64() >> 1, spec: spec.clone() });
+        for s in SO_SOLVERS.iter().chain(MO_SOLVERS.iter()) {
+            for &pop in POPS.iter() {
+                if args.thorough() {
+                    for &iters in ITERS.iter() {
+                        for dim in 1..=6usize {
+                            let shape = rng.below(3) as u8;
+                            let spec = gen_spec(&mut rng, shape, Some(dim));
+                            jobs.push(Job { solver: s.to_string(), pop, iters, seed: rng.next_u64() >> 1, spec });
+                        }
+                    }
+                } else {
+                    for k in 0..3 {
+                        // the first job of every pair is one where a run parameter can show: proper box, non-constant objective, long run
+                        let shape = if k == 0 { 0 } else { rng.below(3) as u8 };
+                        let mut spec = gen_spec(&mut rng, shape, None);
+                        if k == 0 && spec.kind == 2 {
+                            spec.kind = [0u8, 1, 3][rng.usize(3)];
+                        }
+                        // one long and one short run per pair
+                        let iters = if k % 2 == 0 { ITERS[2 + rng.usize(2)] } else { ITERS[rng.usize(2)] + rng.usize(5) };
+                        jobs.push(Job { solver: s.to_string(), pop, iters, seed: rng.next_u64() >> 1, spec });
+                    }
                 }
             }
         }
     }
-    let results = run_children(&args, &jobs, 6, if args.thorough() { 900 } else { 150 });
+    let results = run_children(&args, &jobs, 4, if args.thorough() { 2400 } else { 200 });
 
     let mut req: Vec<String> = vec![];
     let mut req_job: Vec<usize> = vec![];
     let mut pending: Vec<(usize, String, String)> = vec![]; // job, signature, what  (violations found without the driver)
-    for (ji, (j, (r1, r8))) in jobs.iter().zip(results.iter()).enumerate() {
+    for (ji, (j, rs)) in jobs.iter().zip(results.iter()).enumerate() {
+        let r1 = &rs[0];
         let jl = show_job(j);
         rep.case(&jl, nontrivial(&j.spec));
         let status = r1.split(' ').next().unwrap_or("?").to_string();
@@ -536,9 +558,20 @@ fn main() {
             rep.sample(json!({"job": jl, "result_threads1": r1}));
         }
         let shape = if is_degenerate(&j.spec) { "degenerate-bounds" } else { "proper-bounds" };
-        if r1 != r8 {
-            let kind = if status == "hang-or-abort" || r8.starts_with("hang-or-abort") || status == "not-run" || r8.starts_with("not-run") { "hang" } else { "thread-count" };
-            pending.push((ji, format!("{}:{}:{}", kind, j.solver, shape), format!("results with 1 and 8 rayon threads differ\n1: {}\n8: {}", r1, r8)));
+        rep.count(&format!("pop:{}", j.pop));
+        if let Some(pi) = (1..3).find(|&pi| rs[pi] != *r1) {
+            // first pool whose result differs from the 1-thread run
+            let dead = |r: &str| r.starts_with("hang-or-abort") || r.starts_with("not-run");
+            let kind = if dead(r1) || dead(&rs[pi]) { "hang" } else { "thread-count" };
+            pending.push((
+                ji,
+                format!("{}:{}:{}", kind, j.solver, shape),
+                format!("same seed, different result with {} and {} rayon threads\n{}: {}\n{}: {}", POOLS[0].0, POOLS[pi].0, POOLS[0].0, r1, POOLS[pi].0, rs[pi]),
+            ));
+            continue;
+        }
+        if rs[3] != rs[2] {
+            pending.push((ji, format!("same-pool:{}:{}", j.solver, shape), format!("same seed run twice in the same 8-thread pool gave different results\n8 : {}\n8b: {}", rs[2], rs[3])));
             continue;
         }
         match status.as_str() {
